@@ -420,12 +420,18 @@ pub fn to_json_text<S: Serialize>(s: &S) -> Result<String, String> {
 
 /// which named parameter each entry of generate_basis() drives: found by perturbing a clone
 pub fn basis_names<S: Crystal>(state: &S) -> Result<Vec<String>, String> {
-    let probe = state.clone();
-    let (_, before) = read_params_json(&to_json_text(&probe)?)?;
-    let n = probe.generate_basis().len();
+    let (_, before) = read_params_json(&to_json_text(state)?)?;
+    let n = state.generate_basis().len();
     let mut names = Vec::with_capacity(n);
     for i in 0..n {
+        // a fresh clone per entry: the probe is thrown away, nothing has to be restored (restoring
+        // is exactly what C06 is about and must not be relied upon here)
+        let probe = state.clone();
         let mut basis = probe.generate_basis();
+        if i >= basis.len() {
+            names.push(format!("unidentified{}", i));
+            continue;
+        }
         let old = basis[i].get_value();
         let delta = 1e-6 * old.abs().max(1.0);
         basis[i].set_value(old - delta);
@@ -444,14 +450,11 @@ pub fn basis_names<S: Crystal>(state: &S) -> Result<Vec<String>, String> {
             .filter(|(a, b)| a.1.to_bits() != b.1.to_bits())
             .map(|(a, _)| &a.0)
             .collect();
-        // put the value back exactly (through the same handle: bounds are derived from the values
-        // at the time a handle is created, a fresh handle could clamp)
-        basis[i].reset_value();
-        if basis[i].get_value().to_bits() != old.to_bits() {
-            return Err(format!("basis entry {} could not be restored after probing", i));
-        }
         if changed.len() != 1 {
-            return Err(format!("basis entry {} drives {} serialised parameters", i, changed.len()));
+            // a clone that does not start out equal to the original, or a setter that moves two
+            // parameters: not identifiable; the checks that care (C08, C09) report it themselves
+            names.push(format!("unidentified{}", i));
+            continue;
         }
         names.push(changed[0].clone());
     }
